@@ -441,7 +441,9 @@ def obligations(tier, seed):
     nb = 3 if q else 4
     for start in range(nb):
         for cname, cpre in AK_CLASSES:
-            obs.append(_ob(f"C07.bytes/n={nb}/start={start}/w0={cname}", "h_bytes", [f"n == {nb}", f"start == {start}", cpre.format(v="b0")], T,
-                           "raw SAT words, seek position, read size, byte index", "well-formed chains in tables of n sectors; one seek+read",
-                           stubs=["AbsFile/Spans"]))
+            for c1name, c1pre in (AK_CLASSES if nb == 4 else [(None, None)]):          # n=4: split by the class of word 1 as well (one obligation did not finish otherwise)
+                obs.append(_ob(f"C07.bytes/n={nb}/start={start}/w0={cname}" + (f"/w1={c1name}" if c1name else ""), "h_bytes",
+                               [f"n == {nb}", f"start == {start}", cpre.format(v="b0")] + ([c1pre.format(v="b1")] if c1name else []), T,
+                               "raw SAT words, seek position, read size, byte index", "well-formed chains in tables of n sectors; one seek+read",
+                               stubs=["AbsFile/Spans"]))
     return obs
